@@ -247,7 +247,10 @@ func includeHeader(hdr string, signedHdrs []string) bool {
 
 func IsBigDataAction(ctx *fiber.Ctx) bool {
 	if ctx.Method() == http.MethodPut && len(strings.Split(ctx.Path(), "/")) >= 3 {
-		if !ctx.Request().URI().QueryArgs().Has("tagging") && ctx.Get("X-Amz-Copy-Source") == "" && !ctx.Request().URI().QueryArgs().Has("acl") {
+		// only requests whose handler streams the body into the backend: for every other
+		// object-level PUT the signature is verified before the handler runs
+		if !ctx.Request().URI().QueryArgs().Has("tagging") && ctx.Get("X-Amz-Copy-Source") == "" && !ctx.Request().URI().QueryArgs().Has("acl") &&
+			!ctx.Request().URI().QueryArgs().Has("retention") && !ctx.Request().URI().QueryArgs().Has("legal-hold") {
 			return true
 		}
 	}
